@@ -703,6 +703,32 @@ FMT_LITSC = {}        # rule R12: literal pieces of format strings written to a 
 IO_UNWRAP = set()     # rule R11: callee names whose `.unwrap()` is an accepted panic on I/O failure (set per unit build)
 
 
+def _chain_steps(text, st, pieces, rest, sink):
+    """rules R12 / R13: the stand-in calls that write the pieces of a format string to `sink`, threading the Result"""
+    k = 0
+    steps = []
+    for kind, v in pieces:
+        if kind == "lit":
+            if any(b_ >= 128 for b_ in v):
+                raise LexError("non-ASCII literal piece in a format string")
+            FMT_LITSC[v.hex()] = v
+            steps.append("let vr_ = vfw_lit(%s, vr_, Ghost(vlitc_%s()));" % (sink, v.hex()))
+        elif kind in ("arg", "padarg"):
+            if k >= len(rest):
+                raise LexError("format arguments do not match the placeholders")
+            a, b = rest[k]
+            k += 1
+            ex = text[st[a].start:st[b].end]
+            steps.append(("let vr_ = vfw_arg(%s, vr_, &(%s));" % (sink, ex)) if kind == "arg" else ("let vr_ = vfw_pad(%s, vr_, &(%s), %d);" % (sink, ex, v[1])))
+        elif kind == "named":
+            steps.append("let vr_ = vfw_arg(%s, vr_, &(%s));" % (sink, v))
+        else:
+            steps.append("let vr_ = vfw_pad(%s, vr_, &(%s), %d);" % (sink, v[0], v[1]))
+    if k != len(rest):
+        raise LexError("format arguments do not match the placeholders")
+    return steps
+
+
 def apply_rules(text, rules, ed, base=0, regex_map=None):
     """Apply the closed list of rewrite rules (DESIGN.md 2.1 item 2) to `text`;
     edits are recorded in `ed` at offset `base`."""
@@ -851,31 +877,17 @@ def apply_rules(text, rules, ed, base=0, regex_map=None):
                     pieces[-1] = ("lit", pieces[-1][1] + b"\n")
                 else:
                     pieces.append(("lit", b"\n"))
-            rest = args[2:]
-            k = 0
-            steps = []
-            okp = True
-            for kind, v in pieces:
-                if kind == "lit":
-                    if any(b_ >= 128 for b_ in v):
-                        raise LexError("non-ASCII literal piece in a format string")
-                    FMT_LITSC[v.hex()] = v
-                    steps.append("let vr_ = vfw_lit(%s, vr_, Ghost(vlitc_%s()));" % (sink, v.hex()))
-                elif kind in ("arg", "padarg"):
-                    if k >= len(rest):
-                        okp = False
-                        break
-                    a, b = rest[k]
-                    k += 1
-                    ex = text[st[a].start:st[b].end]
-                    steps.append(("let vr_ = vfw_arg(%s, vr_, &(%s));" % (sink, ex)) if kind == "arg" else ("let vr_ = vfw_pad(%s, vr_, &(%s), %d);" % (sink, ex, v[1])))
-                elif kind == "named":
-                    steps.append("let vr_ = vfw_arg(%s, vr_, &(%s));" % (sink, v))
-                else:
-                    steps.append("let vr_ = vfw_pad(%s, vr_, &(%s), %d);" % (sink, v[0], v[1]))
-            if not okp or k != len(rest):
-                raise LexError("write! arguments do not match its placeholders")
+            steps = _chain_steps(text, st, pieces, args[2:], sink)
             ed.replace(base + t.start, base + st[e].end, "R12", "({ let vr_ = vfw_start(%s); %s vr_ })" % (sink, " ".join(steps)))
+            i = e
+        elif "R13" in rules and is_id(t, "format") and i + 3 < n and is_p(st[i + 1], "!") and is_p(st[i + 2], "(") \
+                and st[i + 3].kind == "str" and _fmt_pieces(st[i + 3].text, pad=True) is not None:
+            # format!(LIT, args..) with {} / {name} / {:0N} / {name:0N} placeholders: the String built by the same chain
+            # of stand-in calls as rule R12, on a fresh String as the sink (writing to a String cannot fail)
+            e = match_close(st, i + 2)
+            args = _split_args(st, i + 2, e)
+            steps = _chain_steps(text, st, _fmt_pieces(st[i + 3].text, pad=True), args[1:], "&mut vs_")
+            ed.replace(base + t.start, base + st[e].end, "R13", "({ let mut vs_ = vs_new(); let vr_ = vfw_start(&mut vs_); %s vs_ok(&vs_, vr_); vs_ })" % " ".join(steps))
             i = e
         elif "R11" in rules and is_id(t, "unwrap") and i >= 2 and is_p(st[i - 1], ".") and is_p(st[i - 2], ")") \
                 and i + 2 < n and is_p(st[i + 1], "(") and is_p(st[i + 2], ")"):
